@@ -60,6 +60,8 @@ LET = {
     "CZ": (lambda h: ops.CZgate(0.2), 2, ALL, False),
     "V": (lambda h: ops.Vgate(0.1 / s_of(h)), 1, (F,), True),
     "MS": (lambda h: ops.MSgate(0.3, 0.2, 1.2, 0.9, avg=True), 1, (B,), False),
+    # single-shot measurement-based squeezing: the ancilla outcome is a quadrature value reported in units of sqrt(hbar)
+    "MS(shot)": (lambda h: ops.MSgate(0.3, 0.2, 1.2, 0.9, avg=False), 1, (B,), True),
     "Loss": (lambda h: ops.LossChannel(0.6), 1, ALL, False),
     "MX(sel)": (lambda h: ops.MeasureHomodyne(0.0, select=0.3 * s_of(h)), 1, ALL, True),
     "MP(sel)": (lambda h: ops.MeasureHomodyne(PI / 2, select=-0.2 * s_of(h)), 1, (G, B), True),
@@ -100,6 +102,9 @@ def execute(backend, seq, h, n=2):
             smp = np.asarray(result.samples)
             if smp.size:
                 out[("samples/s",)] = np.real(np.asarray(smp, dtype=complex)).ravel() / s_of(h)
+            anc = getattr(result, "ancillae_samples", None)
+            if anc:
+                out[("ancillae_samples/s",)] = np.array([float(np.real(np.ravel(v)[0])) for k in sorted(anc) for v in anc[k]]) / s_of(h)
             # the same Program object (same operation objects) executed a second time on a fresh engine: same answers
             eng2 = sf.Engine(backend, backend_options={"cutoff_dim": CUT} if backend == F else None)
             result2 = eng2.run(prog)
